@@ -266,15 +266,33 @@ def r36_construction_order(ctx):
         hits = [n for n in cfg.stmt_nodes() if any(pred(c) for c in calls_at(n))]
         need(len(hits) >= 1, 'R36: %s not found in Election.__init__' % desc)
         return hits[0]
-    merge = find(lambda c: isinstance(c.func, ast.Attribute) and c.func.attr == 'update'
-                 and any(isinstance(x, ast.Attribute) and x.attr == 'options' and isinstance(x.value, ast.Name)
-                         and x.value.id == 'electionProfile' for a in c.args for x in ast.walk(a)),
-                 'merge of the profile options')
-    mcall = [c for c in calls_at(merge) if isinstance(c.func, ast.Attribute) and c.func.attr == 'update'][0]
-    fo = get_arg(mcall, 2, 'file_options')
-    ctx.check(isinstance(fo, ast.Constant) and fo.value is True, R, mcall, init,
-              'options embedded in the ballot file are merged into the file layer', 'update(..., file_options=True)',
-              'profile options are merged without file_options=True: they land in the command layer and override the caller')
+    # every call that writes the option layers (Options.update) in Election.__init__
+    merges = [n for n in cfg.stmt_nodes() if any(isinstance(c.func, ast.Attribute) and c.func.attr == 'update'
+                                                 and unparse(c.func.value) in ('options', 'self.options') for c in calls_at(n))]
+    need(merges, 'R36: no options.update(...) call (merge of the profile options) found in Election.__init__')
+    # the profile's options must reach such a call (directly or through a local holding options.parse(electionProfile.options))
+    def mentions_profile_options(c):
+        for a in list(c.args) + [k.value for k in c.keywords]:
+            for x in ast.walk(a):
+                if isinstance(x, ast.Attribute) and x.attr == 'options' and isinstance(x.value, ast.Name) and x.value.id == 'electionProfile':
+                    return True
+                if isinstance(x, ast.Name):
+                    df, vals = ctx.scope(init).lookup_def(x.id, init)
+                    if vals and vals != 'param':
+                        for val, st_ in vals:
+                            if isinstance(val, ast.AST) and any(isinstance(y, ast.Attribute) and y.attr == 'options' and isinstance(y.value, ast.Name)
+                                                                and y.value.id == 'electionProfile' for y in ast.walk(val)):
+                                return True
+        return False
+    pm = [n for n in merges if any(mentions_profile_options(c) for c in calls_at(n) if isinstance(c.func, ast.Attribute) and c.func.attr == 'update')]
+    need(pm, 'R36: merge of the profile options not found in Election.__init__')
+    for n_ in pm:
+        mcall = [c for c in calls_at(n_) if isinstance(c.func, ast.Attribute) and c.func.attr == 'update'][0]
+        fo = get_arg(mcall, 2, 'file_options')
+        ctx.check(isinstance(fo, ast.Constant) and fo.value is True, R, mcall, init,
+                  'options embedded in the ballot file are merged into the file layer', 'update(..., file_options=True)',
+                  'profile options are merged without file_options=True: they land in the command layer and override the caller')
+    merge = sorted(pm, key=lambda x: x.line)[-1]      # the LAST merge of profile options must still precede the rule
     mk_rule = find(lambda c: isinstance(c.func, ast.Name) and c.func.id == 'Rule', 'Rule(self)')
     rule_opts = find(lambda c: unparse(c.func) == 'self.rule.options', 'self.rule.options()')
     arith = find(lambda c: unparse(c.func).endswith('ArithmeticClass'), 'values.ArithmeticClass(self.options)')
